@@ -1,3 +1,14 @@
 import Amoco.Props.C18
-open Amoco.Blocks.Props
+open Amoco.Blocks.Props Amoco.Cfg.Props
 #print axioms sequence_consecutive
+#print axioms sequence_reads
+#print axioms sequence_stops
+#print axioms blocks_maximal_runs
+#print axioms closed_block_last_not_delayed
+#print axioms block_raw_concat
+#print axioms block_getitem_concat
+#print axioms block_cut_concat
+#print axioms cfg_partition
+#print axioms cfg_fallthrough
+#print axioms get_with_address_spec
+#print axioms add_vertex_step
